@@ -382,6 +382,10 @@ class SED(object):
         sed_apertures = self.apertures.to(u.au).value
         sed_wav = self.wav.to(u.micron).value
 
+        # Work on a floating-point copy (the maximum would be truncated when
+        # written into an integer array, and the caller's array is left alone)
+        apertures = np.array(apertures, dtype=float)
+
         # If any apertures are larger than the defined max, reset to max
         apertures[apertures > sed_apertures.max()] = sed_apertures.max()
 
